@@ -267,13 +267,17 @@ func tame(v any) any {
 		for k, e := range x {
 			switch k {
 			case "$repeat":
-				if n, ok := e.(int); ok && (n > 5 || n < 0) {
-					x[k] = ((n%4)+4)%4
+				if n, ok := e.(int); ok && n > 5 {
+					x[k] = n % 4
+				} else if ok && n < -3 {
+					x[k] = n%3 - 1 // negative counts stay negative (and small)
 				}
 				if m, ok := e.(map[string]any); ok {
 					for kk, ee := range m {
-						if n, ok := ee.(int); ok && (n > 4 || n < 0) {
-							m[kk] = ((n%3)+3)%3
+						if n, ok := ee.(int); ok && n > 4 {
+							m[kk] = n % 3
+						} else if ok && n < -3 {
+							m[kk] = n%3 - 1
 						}
 					}
 				}
@@ -331,7 +335,7 @@ func C08(r *Run) {
 		return d
 	}
 	// (i) the repository's own fuzz corpus, pushed through the whole pipeline
-	corpus, _ := filepath.Glob("/repo/testdata/fuzz/FuzzParser/*")
+	corpus, _ := filepath.Glob(RepoDir() + "/testdata/fuzz/FuzzParser/*")
 	nc := r.Pick(300, 9500)
 	if nc > len(corpus) {
 		nc = len(corpus)
@@ -362,7 +366,7 @@ func C08(r *Run) {
 		})
 	}
 	// (ii) the fixtures' own layer files
-	fixtures, _ := filepath.Glob("/repo/tests/*/a.b.*")
+	fixtures, _ := filepath.Glob(RepoDir() + "/tests/*/a.b.*")
 	for _, fx := range fixtures {
 		fx := fx
 		submit(func() [][]byte {
@@ -468,6 +472,38 @@ func C08(r *Run) {
 			return toolRuns(d, "a.yaml", "", nil, "yaml alias cycle")
 		})
 	}
+	// (vi) edge catalogue: every $repeat form with small negative / zero counts (alone, and
+	// next to a positive count in either order), $encode / $decode with empty arguments
+	edge := []any{}
+	for _, c := range []int{-1, -3, 0, 1} {
+		for _, c2 := range []int{-2, 0, 2} {
+			edge = append(edge,
+				map[string]any{"$repeat": map[string]any{"a": c, "b": c2}, "v": `$"{$repeat:a}/{$repeat:b}"`},
+				map[string]any{"$repeat": map[string]any{"a": c2, "b": c}, "v": 1})
+		}
+		edge = append(edge,
+			map[string]any{"$repeat": c, "v": "$repeat"},
+			map[string]any{"$repeat": map[string]any{"x": c}, "v": "$repeat:x"},
+			map[string]any{"l": []any{"a", map[string]any{"$repeat": c, "i": "$repeat"}, "z"}},
+			map[string]any{"m": map[string]any{`$"k{$repeat}"`: map[string]any{"$repeat": c, "i": 1}}},
+			[]any{map[string]any{"$repeat": c}, "$repeat"},
+			[]any{"x", map[string]any{"$repeat": map[string]any{"p": c, "q": 2}}})
+	}
+	for _, a := range []string{"join:", "prefix:", "split:", "join", "flags:", "sha256:", "base64:", ":", ""} {
+		edge = append(edge, map[string]any{"e": map[string]any{"$encode": a, "$value": []any{"", "x", ""}}},
+			map[string]any{"e": map[string]any{"$decode": a, "$value": ""}})
+	}
+	for i, doc := range edge {
+		doc, i := doc, i
+		submit(func() [][]byte {
+			d := newDir()
+			defer os.RemoveAll(d)
+			bs, _ := json.Marshal(doc)
+			os.WriteFile(filepath.Join(d, "a.json"), bs, 0o644)
+			return toolRuns(d, "a.json", "", nil, fmt.Sprintf("edge catalogue %d", i))
+		})
+	}
+	r.Cov["edge_catalogue_documents"] = len(edge)
 	// known findings, probed directly
 	submit(func() [][]byte {
 		d := newDir()
@@ -484,5 +520,5 @@ func C08(r *Run) {
 	r.Level = "model_checking"
 	finishEvalFamily(r, "C08", st, sessions,
 		[]string{"StrictCycleIsError", "AcyclicNeverReportsCycle", "ProtocolOK (per process)"},
-		"model: all 17^3 reference graphs on three subtrees (map/list/string $merge, $replace, interpolation, self-merge; cycles included) evaluated through the real CLI; driver: the repository's fuzz corpus (JSON/TOML entries) and fixtures through the whole pipeline, generated directive-laden documents with type-confused arguments in three formats and byte mutations, raw byte strings as JSON/TOML, all 64 $parent graphs on three files - each through bkl (3 output formats), bklr, bkld and bkli under a 10 s timeout; TLC validates the termination protocol of every process")
+		"model: all 17^3 reference graphs on three subtrees (map/list/string $merge, $replace, interpolation, self-merge; cycles included) evaluated through the real CLI; driver: the repository's fuzz corpus (JSON/TOML entries) and fixtures through the whole pipeline, generated directive-laden documents with type-confused arguments in three formats and byte mutations, raw byte strings as JSON/TOML, all 64 $parent graphs on three files, an edge catalogue ($repeat forms with negative / zero counts, $encode / $decode with empty arguments) - each through bkl (3 output formats), bklr, bkld and bkli under a 10 s timeout; TLC validates the termination protocol of every process")
 }
